@@ -110,3 +110,15 @@ From PKOCorr Require Import SetCorr SetMonitors SetMonSound SetMonSound2.
 Theorem C01_set_monitor_report_sound : forall c : scase, m01 (set_obs_s c (SetCorr.model_run c)) = true.
 Proof. exact m01_sound. Qed.
 Print Assumptions C01_set_monitor_report_sound.
+
+(** m01c (a collision is reported only for a refusal: some listed object exists, is not controlled and may not be
+    adopted) and m01s (m01, m01c and the phase-level monitors C01Corr m1 / m2 on the member requests of an active pass
+    of an ObjectSet with a revision, with the previous revisions the stored ObjectSets give) accept every pass of the
+    model; no well-formedness hypothesis is needed. *)
+Theorem C01_set_monitor_collision_sound : forall c : scase, m01c (set_obs_s c (SetCorr.model_run c)) = true.
+Proof. exact m01c_sound. Qed.
+Print Assumptions C01_set_monitor_collision_sound.
+
+Theorem C01_set_monitor_sound : forall c : scase, m01s (set_obs_s c (SetCorr.model_run c)) = true.
+Proof. exact m01s_sound. Qed.
+Print Assumptions C01_set_monitor_sound.
